@@ -48,6 +48,7 @@ CONTRACTS["scenarios:ParameterScenario.get_parset#one_overwrite_point"] = dict(
         ("C09.years_before_the_first_overwrite_keep_their_baseline_value", " and ".join(_before(g) for g in GRID)),
         ("C09.nothing_else_is_left_before_the_first_overwrite", "all(implies(ts.t[i] < Y, any(ts.t[i] == g and g < Y for g in [%s])) for i in range(len(ts.t)))" % ", ".join(repr(g) for g in GRID)),
         ("C09.the_overwrite_point_is_present", "any(ts.t[i] == Y and ts.vals[i] == v for i in range(len(ts.t)))"),
+        ("C09.series_stays_aligned_and_sorted", "len(ts.t) == len(ts.vals) and all(ts.t[i] < ts.t[i + 1] for i in range(len(ts.t) - 1))"),
         ("C09.a_function_parameter_is_not_evaluated_from_the_first_overwrite_on", "implies(has_function, PAR.skip_function['pop'][0] == Y)"),
         ("C09.a_data_parameter_keeps_no_skip_window", "implies(not has_function, PAR.skip_function['pop'] is None)"),
     ],
